@@ -72,15 +72,27 @@ RingOK == l > 0 => LET ws == [j \in 1..Len(C.scens) |-> EffW(C.scens[j].weight)]
 \* [next] across instances: per source the rows seen are 0..M-1 mod R with the right multiplicities,
 \* where M is the number of [next] look-ups the description makes (Expected.handed)
 SeenRows(src)  == {j \in 1..Len(O.log) : O.log[j].val.t = SrcTag(src)}
-NextRowsOK == Multi => LET eh == E.handed IN \A src \in Sources :
+Bags == l > 0 /\ C.fam = "mfail"
+NextRowsOK == (Multi /\ ~Bags) => LET eh == E.handed IN \A src \in Sources :
                  /\ Cardinality(SeenRows(src)) = Cardinality({j \in 1..Len(eh) : eh[j].src = src})
                  /\ \A r \in 0..(C.rows - 1) :
                       Cardinality({j \in SeenRows(src) : O.log[j].val.n = r})
                         = Cardinality({j \in 1..Len(eh) : eh[j].src = src /\ eh[j].n % C.rows = r})
-MultiSamplesOK == Multi => LET e == E IN
+MultiSamplesOK == (Multi /\ ~Bags) => LET e == E IN
                            /\ Len(O.samples) = Len(e.samples)
                            /\ Len(O.log) = Len(e.log)
                            /\ \A j \in 1..Len(O.samples) : O.samples[j].proto = 200 /\ ~O.samples[j].err
                            /\ \A nm \in Names : Cardinality({j \in 1..Len(O.samples) : O.samples[j].step = nm})
                                                 = Cardinality({j \in 1..Len(e.samples) : e.samples[j].step = nm})
+\* several instances with failures (rows decide which shots fail): the requests the target saw and the samples are, as
+\* multisets, those of the specification's run - per row either (a, b) or the failed a alone
+LogKey(e) == <<e.req, e.at, e.val>>
+SmpKey(x) == <<x.sc, x.step, x.proto, x.err>>
+MultiBagsOK == Bags =>
+    LET e == E IN
+    /\ Len(O.log) = Len(e.log) /\ Len(O.samples) = Len(e.samples)
+    /\ \A j \in 1..Len(e.log) : Cardinality({i \in 1..Len(O.log) : LogKey(O.log[i]) = LogKey(e.log[j])})
+                                  = Cardinality({i \in 1..Len(e.log) : LogKey(e.log[i]) = LogKey(e.log[j])})
+    /\ \A j \in 1..Len(e.samples) : Cardinality({i \in 1..Len(O.samples) : SmpKey(O.samples[i]) = SmpKey(e.samples[j])})
+                                      = Cardinality({i \in 1..Len(e.samples) : SmpKey(e.samples[i]) = SmpKey(e.samples[j])})
 =============================================================================
